@@ -375,7 +375,7 @@ def count_nodes(chain):
 # ---------------------------------------------------------------------------------------------
 # random ASTs
 
-NAMES = ['A', 'B', 'C', 'PEO', 'PMA', 'X1', 'a2b', 'OH', '2VP', '12', '0x']
+NAMES = ['A', 'B', 'C', 'PEO', 'PMA', 'X1', 'a2b', 'OH', '2VP', '12', '0x', '01', '1E5']
 
 
 def random_ast(rng, n_nodes, max_depth=3, p_branch=0.35, p_bond=0.3, n_rings=0, p_mult_node=0.0,
